@@ -62,3 +62,38 @@ def nbc_batch_stage(tier: str) -> dict:
         rows.unlink()
         return out
     return stage("nbc_batch", tier, build)
+
+
+def shade_stage(tier: str) -> dict:
+    """growth: Shade.tla model-checked (invariants + witnesses), recorded generations of real SHADE objects validated
+    against it by ShadeTrace.tla"""
+    from .common import seed
+    from .tracecheck import parse_trace_results
+
+    def build(d: Path) -> dict:
+        cfg = f"Shade_{tier}.cfg"
+        r = run_tlc("Shade", cfg, d, deadlock=True, coverage=True, timeout=900, heap="2g")
+        tlc_must_pass(r, "Shade")
+        out = {"tlc": {"generated": r.generated, "distinct": r.distinct, "violated": r.violated, "cfg": cfg, "wall_s": round(r.wall_s, 1)}}
+        w = run_tlc("Shade", "Shade_witness.cfg", d, deadlock=True, timeout=900, heap="2g", extra=["-continue"])
+        out["witnesses_reached"] = sorted(set(w.violated))
+        n = 60 if tier == "quick" else 600
+        path = d / "traces.json"
+        p = run_py(["harness/shade_growth.py", str(path), str(seed()), str(n)], timeout=1800,
+                   env={"OMP_NUM_THREADS": "1", "OPENBLAS_NUM_THREADS": "1"})
+        if p.returncode != 0:
+            raise MachineryError("shade_growth recording failed:\n" + p.stdout[-1500:] + p.stderr[-3000:])
+        out["recorded"] = json.loads(p.stdout.strip().splitlines()[-1])
+        t = run_tlc("ShadeTrace", "ShadeTrace.cfg", d, workers=4, env={"VERIF_TRACES": str(path)}, deadlock=True, heap="4g")
+        res = parse_trace_results(t.out)
+        if not t.ok or len(res) != n:
+            raise MachineryError(f"ShadeTrace: {len(res)}/{n} traces reported:\n" + "\n".join(t.out.splitlines()[-20:]))
+        out["trace_states"] = t.distinct
+        by = {}
+        for x in res:
+            for c, l in x["viol"]:
+                by.setdefault(c, []).append(f"{x['name']} generation {l}")
+        out["clauses_violated"] = {c: {"n": len(v), "first": v[0]} for c, v in sorted(by.items())}
+        path.unlink()
+        return out
+    return stage("shade_growth", tier, build)
